@@ -2,6 +2,7 @@ package lint
 
 import (
 	"fmt"
+	"go/token"
 	"sort"
 	"strings"
 
@@ -277,7 +278,7 @@ func ruleConfFollower() *Rule {
 	const id = "CONF-FOLLOW"
 	return &Rule{
 		ID: id,
-		Text: "(CONF-TRUNC) when the AppendEntries handler truncates the log at an index ≤ configuration.Index it falls back to committedConfiguration before appending; " +
+		Text: "(CONF-TRUNC) when the AppendEntries handler truncates the log at an index ≤ configuration.Index it falls back, before appending, to committedConfiguration or to a configuration decoded from an entry that remains in the log (else committedConfiguration); " +
 			"(CONF-ADOPT) sibling agreement: restore() and the leader adopt the latest configuration entry in the log, so every path of the handler that appends received entries must inspect their type and make the latest configuration entry the one in force; " +
 			"(CONF-RESTORE) restore() scans (lastIncludedIndex, LastIndex] and stores r.configuration only from entries of type ConfigurationEntry, the previous one becoming committedConfiguration.",
 		Floor: 3,
@@ -323,7 +324,7 @@ func ruleConfFollower() *Rule {
 					}
 				}
 				if c, ok := in.(*ssa.Call); ok && c.Common().StaticCallee() == nextConf {
-					if p.Canon(f, c.Common().Args[1]).S == "r.committedConfiguration" {
+					if p.Canon(f, c.Common().Args[1]).S == "r.committedConfiguration" || fallbackHelper(p, c.Common().Args[1]) {
 						return sp.Assign(st, 1, 1)
 					}
 				}
@@ -349,6 +350,7 @@ func ruleConfFollower() *Rule {
 				entry = sp.Filter(entry, i, 1)
 			}
 			a.RunFrame(NewRootFrame(root), entry)
+			adoptDone := false
 			for _, o := range a.SortedObs() {
 				switch {
 				case strings.HasPrefix(o.Key, "CONF-TRUNC"):
@@ -359,11 +361,15 @@ func ruleConfFollower() *Rule {
 						return iCmp >= 0 && sp.Val(pt, iCmp) == GT
 					}, nil, "a truncation that removes the current configuration entry falls back to the committed configuration")...)
 				case strings.HasPrefix(o.Key, "CONF-ADOPT"):
-					bad := sp.Where(o.State, func(pt int) bool { return sp.Val(pt, 2) == 1 && sp.Val(pt, 3) == 0 })
+					if adoptDone {
+						continue
+					}
+					adoptDone = true
 					ob := Obligation{Rule: id, Construct: "CONF-ADOPT configuration entries received from the leader in (*Raft).AppendEntries", Pos: o.Pos}
-					if bad.IsEmpty() {
-						ob.Verdict, ob.Detail = Discharged, "the handler inspects the type of appended entries"
+					if why := confAdoptStructure(p, root, nextConf, confEntry); why == "" {
+						ob.Verdict, ob.Detail = Discharged, "after appending, the handler looks for configuration entries among the entries it appended, decodes the one it finds and puts it in force"
 					} else {
+						ob.Facts = append(ob.Facts, why)
 						ob.Verdict = Violated
 						ob.Detail = "the handler appends received entries without ever looking at their type: a configuration entry takes effect on this node only when it is applied, while restore() and the leader use the latest configuration in the log — nodes can be two configurations apart and elect/commit with disjoint majorities"
 					}
@@ -371,9 +377,78 @@ func ruleConfFollower() *Rule {
 				}
 			}
 			out = append(out, confRestore(p, id)...)
+			out = append(out, confApplyMono(p, id, nextConf)...)
 			return out
 		},
 	}
+}
+
+// confApplyMono: once followers put a configuration in force when it is appended, the configuration that is APPLIED
+// can be older than the one in force (index 5 is applied after index 8 was appended). Applying must not go back:
+// in applyConfiguration the switch to the applied configuration is conditioned on its index not being below
+// r.configuration.Index.
+func confApplyMono(p *Program, id string, nextConf *ssa.Function) []Obligation {
+	fn := p.Func("(*Raft).applyConfiguration")
+	if fn == nil {
+		return missing(id, "(*Raft).applyConfiguration")
+	}
+	ob := Obligation{Rule: id, Construct: "CONF-APPLY applying a configuration never replaces a more recent one that is in force, in (*Raft).applyConfiguration", Pos: p.Pos(fn.Pos())}
+	fr := NewRootFrame(fn)
+	n := 0
+	for _, b := range fn.Blocks {
+		for _, in := range b.Instrs {
+			c, ok := in.(*ssa.Call)
+			if !ok || c.Common().StaticCallee() != nextConf {
+				continue
+			}
+			n++
+			guarded := false
+			for _, bb := range fn.Blocks {
+				iff, ok := bb.Instrs[len(bb.Instrs)-1].(*ssa.If)
+				if !ok {
+					continue
+				}
+				bo, ok := iff.Cond.(*ssa.BinOp)
+				if !ok {
+					continue
+				}
+				x, y := p.Canon(fr, bo.X).S, p.Canon(fr, bo.Y).S
+				// applied.Index >= / > r.configuration.Index on the true arm (or the mirrored / negated forms)
+				arm := -1
+				switch {
+				case y == "r.configuration.Index" && strings.HasSuffix(x, ".Index") && (bo.Op == token.GEQ || bo.Op == token.GTR):
+					arm = 0
+				case x == "r.configuration.Index" && strings.HasSuffix(y, ".Index") && (bo.Op == token.LEQ || bo.Op == token.LSS):
+					arm = 0
+				case y == "r.configuration.Index" && strings.HasSuffix(x, ".Index") && (bo.Op == token.LSS || bo.Op == token.LEQ):
+					arm = 1
+				case x == "r.configuration.Index" && strings.HasSuffix(y, ".Index") && (bo.Op == token.GTR || bo.Op == token.GEQ):
+					arm = 1
+				}
+				if arm < 0 {
+					continue
+				}
+				// every path to the call passes this arm: the other arm does not reach the call
+				other := bb.Succs[1-arm]
+				if other != in.Block() && !blockReaches(other, in.Block()) && (bb.Succs[arm] == in.Block() || blockReaches(bb.Succs[arm], in.Block())) {
+					guarded = true
+				}
+			}
+			if !guarded {
+				ob.Verdict = Violated
+				ob.Pos = p.InstrPos(in)
+				ob.Detail = "applyConfiguration switches to the configuration it applies without comparing its index with r.configuration.Index: a follower that has a later configuration entry in its log (in force since it was appended) goes BACK to the earlier one when that is applied, " +
+					"and holds elections with a configuration the cluster has left"
+				return []Obligation{ob}
+			}
+		}
+	}
+	if n == 0 {
+		ob.Verdict, ob.Detail = Undecided, "applyConfiguration does not call nextConfiguration"
+	} else {
+		ob.Verdict, ob.Detail = Discharged, "the switch is conditioned on the applied configuration's index not being below the index of the one in force"
+	}
+	return []Obligation{ob}
 }
 
 func confRestore(p *Program, id string) []Obligation {
@@ -546,4 +621,160 @@ func ruleVoteRequests() *Rule {
 			return out
 		},
 	}
+}
+
+// fallbackHelper: v is the result of an in-scope function every return of which is r.committedConfiguration (possibly
+// replaced by an empty configuration when nil) or a configuration decoded from the Data of an entry fetched from the
+// log with Log.GetEntry.
+func fallbackHelper(p *Program, v ssa.Value) bool {
+	c, ok := v.(*ssa.Call)
+	if !ok {
+		return false
+	}
+	fn := c.Common().StaticCallee()
+	if fn == nil || !p.InScope[fn] {
+		return false
+	}
+	committed := p.Field("Raft.committedConfiguration")
+	var okVal func(x ssa.Value, d int) bool
+	okVal = func(x ssa.Value, d int) bool {
+		if d > 6 {
+			return false
+		}
+		switch y := x.(type) {
+		case *ssa.Phi:
+			for _, e := range y.Edges {
+				if !okVal(e, d+1) {
+					return false
+				}
+			}
+			return true
+		case *ssa.UnOp:
+			if y.Op == token.MUL {
+				if fa, ok := y.X.(*ssa.FieldAddr); ok && fieldOf(fa.X.Type(), fa.Field) == committed {
+					return true
+				}
+			}
+		case *ssa.Alloc:
+			// &Configuration{} (nothing stored, or only zero values), or a Configuration filled from DecodeConfiguration(entry.Data)
+			if y.Referrers() == nil {
+				return true
+			}
+			for _, r := range *y.Referrers() {
+				st, ok := r.(*ssa.Store)
+				if !ok || st.Addr != ssa.Value(y) {
+					continue
+				}
+				ex, ok := st.Val.(*ssa.Extract)
+				if !ok {
+					return false
+				}
+				dc, ok := ex.Tuple.(*ssa.Call)
+				if !ok || !strings.HasSuffix(calleeName(dc.Common()), "DecodeConfiguration") {
+					return false
+				}
+			}
+			return true
+		}
+		return false
+	}
+	rets := 0
+	for _, b := range fn.Blocks {
+		if ret, ok := b.Instrs[len(b.Instrs)-1].(*ssa.Return); ok && len(ret.Results) == 1 {
+			rets++
+			if !okVal(ret.Results[0], 0) {
+				return false
+			}
+		}
+	}
+	return rets > 0
+}
+
+// confAdoptStructure returns "" if the handler, after handing a slice of entries to Log.AppendEntries, calls
+// nextConfiguration with a configuration decoded from the Data of an element of that same slice, under a test of that
+// element's EntryType against ConfigurationEntry; otherwise what is missing.
+func confAdoptStructure(p *Program, root, nextConf *ssa.Function, confEntry int64) string {
+	var appendCall ssa.Instruction
+	var appended ssa.Value
+	for _, b := range root.Blocks {
+		for _, in := range b.Instrs {
+			if iface, m, c := invokeOf(in); iface == "Log" && m == "AppendEntries" && len(c.Args) == 1 {
+				if _, isDefer := in.(*ssa.Defer); !isDefer {
+					appendCall, appended = in, c.Args[0]
+				}
+			}
+		}
+	}
+	if appendCall == nil {
+		return "no Log.AppendEntries in the handler"
+	}
+	elemOfAppended := func(v ssa.Value) bool {
+		// v = *(&slice[i]) with slice the appended one
+		u, ok := v.(*ssa.UnOp)
+		if !ok || u.Op != token.MUL {
+			return false
+		}
+		ia, ok := u.X.(*ssa.IndexAddr)
+		return ok && sameSliceVar(ia.X, appended)
+	}
+	fr := NewRootFrame(root)
+	for _, b := range root.Blocks {
+		for _, in := range b.Instrs {
+			c, ok := in.(*ssa.Call)
+			if !ok || c.Common().StaticCallee() != nextConf || !instrBlockDominates(appendCall, in) {
+				continue
+			}
+			al, ok := c.Common().Args[1].(*ssa.Alloc)
+			if !ok || al.Referrers() == nil {
+				continue
+			}
+			decoded := false
+			for _, r := range *al.Referrers() {
+				st, ok := r.(*ssa.Store)
+				if !ok || st.Addr != ssa.Value(al) {
+					continue
+				}
+				ex, ok := st.Val.(*ssa.Extract)
+				if !ok {
+					continue
+				}
+				dc, ok := ex.Tuple.(*ssa.Call)
+				if !ok || !strings.HasSuffix(calleeName(dc.Common()), "DecodeConfiguration") {
+					continue
+				}
+				// argument: load of X.Data with X an element of the appended slice
+				args := dc.Common().Args
+				arg := args[len(args)-1]
+				if u, ok := arg.(*ssa.UnOp); ok && u.Op == token.MUL {
+					if fa, ok := u.X.(*ssa.FieldAddr); ok && fieldOf(fa.X.Type(), fa.Field).Name() == "Data" && elemOfAppended(fa.X) {
+						decoded = true
+					}
+				}
+			}
+			if !decoded {
+				continue
+			}
+			// a dominating test of an element's EntryType against ConfigurationEntry
+			for _, bb := range root.Blocks {
+				iff, ok := bb.Instrs[len(bb.Instrs)-1].(*ssa.If)
+				if !ok || !bb.Dominates(in.Block()) {
+					continue
+				}
+				bo, ok := iff.Cond.(*ssa.BinOp)
+				if !ok {
+					continue
+				}
+				for _, pair := range [][2]ssa.Value{{bo.X, bo.Y}, {bo.Y, bo.X}} {
+					if k, ok := constIntOf(pair[1]); ok && k == confEntry && strings.HasSuffix(p.Canon(fr, pair[0]).S, ".EntryType") {
+						if u, ok := pair[0].(*ssa.UnOp); ok {
+							if fa, ok := u.X.(*ssa.FieldAddr); ok && elemOfAppended(fa.X) {
+								return ""
+							}
+						}
+					}
+				}
+			}
+		}
+	}
+	return "no call of nextConfiguration after Log.AppendEntries with a configuration decoded from a configuration entry among the appended entries"
 }
